@@ -35,3 +35,9 @@ Print Assumptions C02_loop_terminates.
 Theorem C02_one_trajectory : forall p, snd (run_strong false p) = 1.
 Proof. intro p. reflexivity. Qed.
 Print Assumptions C02_one_trajectory.
+
+(* gauge discipline: the loop restores the right-canonical form after every two-qubit gate, so every windowed gate
+   application starts from the form it presupposes *)
+Theorem C02_gauge_discipline : forall ex, forallb (fun b => b) (gauge_run true (gauge_word ex)) = true.
+Proof. exact gauge_discipline. Qed.
+Print Assumptions C02_gauge_discipline.
